@@ -246,7 +246,8 @@ def assemble(crate, meta, failed, outdir, max_events=40000):
                     segs[cur].append(line)
         groups = []
         for c in b["cases"]:
-            if not groups or groups[-1][0] != c["grp"]:
+            # (the members of a group without a group property are not compared with each other: a shard may end between them)
+            if not groups or groups[-1][0] != c["grp"] or not c["gprop"]:
                 groups.append((c["grp"], []))
             groups[-1][1].append(c)
         for grp, cs in groups:
